@@ -1,12 +1,17 @@
 """Translator plugin, domain `Comb` (C19, C04): limits, sizes and decision tables used by the path
 combinator model, re-extracted from the Rust sources on every run.
 
-  * StdPathMetaLayout::{MAX_SEGMENTS, MAX_SEGMENT_HOPS}, meta / info-field / hop-field sizes
+  * StdPathMetaLayout::{MAX_SEGMENTS, MAX_SEGMENT_HOPS, MAX_TOTAL_HOPS}, meta / info-field / hop-field sizes
+  * the *list* of rejection tests of StandardPath::wire_valid (every `if <cond> { return Err(..) }` in source
+    order): the model's `encodeOk` implements exactly this list, a test added / removed / changed in the
+    Rust source breaks the extraction instead of silently leaving the model behind
   * ScionHeaderPathLayout::MAX_SIZE_BYTES (formula re-evaluated from its three operands)
   * EXP_TIME_UNIT and the `exp_time + 1` multiplier of exp_time_to_duration
   * the initial MTU (`u16::MAX`) and the truncating `as u16` cast of the AS MTU in PathSolution::path
   * the loop threshold of has_loops (`*v > 2`)
-  * the segment-kind sequencing rule of PathSolution::valid_next_seg as Boolean functions
+  * the segment sequencing rule of PathSolution::valid_next_seg as Boolean functions of (is core,
+    traversed in construction direction) of the edges, with the definitions of SolutionEdge::is_up /
+    is_down / in_construction_direction checked against the form the model implements
   * the order of the comparison keys of the solution sort in MultiGraph::get_paths
   * the fields hashed by the data-plane fingerprint and by PathSegment::id
 """
@@ -16,6 +21,7 @@ LAYOUT = "crates/libs/sciparse/src/proto/dataplane_path/standard/layout.rs"
 DPLAYOUT = "crates/libs/sciparse/src/proto/dataplane_path/layout.rs"
 HDRLAYOUT = "crates/libs/sciparse/src/proto/header/layout.rs"
 TYPES = "crates/libs/sciparse/src/proto/dataplane_path/standard/types.rs"
+STDMODEL = "crates/libs/sciparse/src/proto/dataplane_path/standard/model.rs"
 GRAPH = "crates/libs/sciparse/src/scion/path/combinator/graph.rs"
 COMB = "crates/libs/sciparse/src/scion/path/combinator.rs"
 FPR = "crates/libs/sciparse/src/scion/path/fingerprint/data_plane.rs"
@@ -37,6 +43,20 @@ def register(api):
         if not out:
             raise E(f"impl {name} not found")
         return "\n".join(out)
+
+    def block_after(src, header_rx, what):
+        """body of the first `{...}` block whose header matches header_rx"""
+        m = re.search(header_rx, src, flags=re.S)
+        if not m:
+            raise E(f"{what} not found")
+        i, depth = m.end(), 1
+        while i < len(src) and depth:
+            depth += {"{": 1, "}": -1}.get(src[i], 0)
+            i += 1
+        return src[m.end():i - 1]
+
+    def norm(x):
+        return " ".join(x.split()).replace(" .", ".")
 
     def total_bytes(src, name):
         body = impl_blocks(src, name)
@@ -66,7 +86,7 @@ def register(api):
         lay = api.strip_comments(api.read(LAYOUT))
         meta = impl_blocks(lay, "StdPathMetaLayout")
         c = api.find_consts(meta)
-        for k in ("MAX_SEGMENTS", "MAX_SEGMENT_HOPS"):
+        for k in ("MAX_SEGMENTS", "MAX_SEGMENT_HOPS", "MAX_TOTAL_HOPS"):
             if k not in c:
                 raise E(f"StdPathMetaLayout::{k} not found")
             vals[k] = api.eval_expr(c[k], {}, {}, {})
@@ -95,6 +115,43 @@ def register(api):
             raise E("ScionHeaderPathLayout::MAX_SIZE_BYTES formula changed")
         vals["PATH_MAX_SIZE"] = hdr_max - common - addr_min
 
+        # ---- StandardPath::wire_valid: the list of rejection tests, in source order -----------------------
+        sm = api.strip_comments(api.read(STDMODEL))
+        wenc = block_after(sm, r"\bimpl\s+WireEncode\s+for\s+StandardPath\s*\{", "impl WireEncode for StandardPath")
+        wbody = fn_body(wenc, "wire_valid")
+        checks = [norm(m.group(1)) for m in re.finditer(r"\bif\s+([^{}]+?)\s*\{\s*return\s+Err\(", wbody)]
+        expected = [
+            "self.required_size() > ScionHeaderPathLayout::MAX_SIZE_BYTES",
+            "self.segments.len() > StdPathMetaLayout::MAX_SEGMENTS",
+            "self.segments.is_empty()",
+            "self.current_hop_field as usize >= self.hop_field_count()",
+            "self.current_hop_field as usize > StdPathMetaLayout::MAX_TOTAL_HOPS",
+            "self.hop_field_count() > StdPathMetaLayout::MAX_TOTAL_HOPS + 1",
+            "self.current_info_field as usize >= self.info_field_count()",
+            "segment.hop_fields.len() > StdPathMetaLayout::MAX_SEGMENT_HOPS",
+            "segment.hop_fields.is_empty()",
+        ]
+        if checks != expected:
+            raise E("StandardPath::wire_valid: the list of rejection tests changed; Model/Combinator.lean encodeOk "
+                    f"implements {expected!r}, the source now has {checks!r}")
+        # nothing else may reject: the remaining statements are the two delegations (both `Ok(())`) and the loop
+        rest = re.sub(r"\bif\s+[^{}]+?\{\s*return\s+Err\([^;]*;\s*\}", "", wbody)
+        rest = norm(rest)
+        if rest != norm("for segment in &self.segments { segment.info_field.wire_valid()?; "
+                        "for hop_field in &segment.hop_fields { hop_field.wire_valid()?; } } Ok(())"):
+            raise E(f"StandardPath::wire_valid: unexpected statements besides the rejection tests: {rest!r}")
+        for ty_name in ("InfoField", "HopField"):
+            b = fn_body(block_after(sm, r"\bimpl\s+WireEncode\s+for\s+" + ty_name + r"\s*\{", f"impl WireEncode for {ty_name}"), "wire_valid")
+            if norm(b) != "Ok(())":
+                raise E(f"{ty_name}::wire_valid is no longer `Ok(())`")
+        hb = norm(fn_body(sm, "hop_field_count"))
+        if hb != norm("self.segments.iter().map(|segment| segment.hop_fields.len()).sum()"):
+            raise E("StandardPath::hop_field_count is no longer the sum of the segments' hop_fields.len()")
+        m = re.fullmatch(r"self\.hop_field_count\(\) > StdPathMetaLayout::(\w+) \+ (\d+)", checks[5])
+        vals["TOTAL_HOPS_LIMIT"] = vals[m.group(1)] + int(m.group(2))
+        vals["WIRE_VALID_CHECKS"] = checks
+        # path() drops a solution exactly when encoding fails: `path.try_encode_to_vec()?` and the caller's `.ok().flatten()`
+
         ty = api.strip_comments(api.read(TYPES))
         m = re.search(r"EXP_TIME_UNIT\s*:\s*Duration\s*=\s*Duration::new\(\s*([\d_]+)\s*,\s*([\d_]+)\s*\)", ty)
         if not m:
@@ -116,7 +173,7 @@ def register(api):
             raise E("PathSolution::path: `as_entry.mtu as uN` cast not found")
         vals["AS_MTU_CAST_BITS"] = int(m.group(1)[1:])
 
-        # valid_next_seg decision table -> Boolean functions over "is core" flags
+        # valid_next_seg decision table -> Boolean functions over (is core, in construction direction) of the edges
         vbody = fn_body(gr, "valid_next_seg")
         m1 = re.search(r"\[\s*\]\s*=>\s*(\w+)\s*,", vbody)
         m2 = re.search(r"\[\s*last\s*\]\s*=>\s*\{\s*([^{}]+?)\s*\}", vbody)
@@ -124,19 +181,34 @@ def register(api):
         m4 = re.search(r"\b_\s*=>\s*\{\s*(\w+)\s*\}", vbody)
         if not (m1 and m2 and m3 and m4):
             raise E("valid_next_seg: match arms not recognised")
+        if not re.search(r"fn\s+valid_next_seg\s*\(\s*&self\s*,\s*next\s*:\s*&SolutionEdge<", gr):
+            raise E("valid_next_seg no longer takes the next SolutionEdge")
+        if not re.search(r"!\s*self\.valid_next_seg\(\s*&e\s*\)", fn_body(gr, "try_add_edge")):
+            raise E("try_add_edge no longer tests valid_next_seg(&e)")
+        # the direction predicates of SolutionEdge, in the form the model implements (GEdge.consDir / isUp / isDown)
+        want = {
+            "in_construction_direction": "self.dst .ia() .is_some_and(|dst| Some(dst) == self.segment.path_segment().last_ia())",
+            "is_up": "self.segment.is_non_core() && !self.in_construction_direction()",
+            "is_down": "self.segment.is_non_core() && self.in_construction_direction()",
+        }
+        for fname, body in want.items():
+            got = norm(fn_body(gr, fname)).replace(" .", ".")
+            if got != norm(body).replace(" .", "."):
+                raise E(f"SolutionEdge::{fname} changed: {got!r}")
 
         def boolfn(expr, names):
             e = " ".join(expr.split())
-            for rust, lean in names.items():
-                e = e.replace(rust + ".is_non_core()", f"(!{lean})").replace(rust + ".is_core()", lean)
-            if not re.fullmatch(r"[\s()!|&a-z]+", e) or re.search(r"[a-z]{2,}", e):
+            for rust, v in names.items():
+                e = e.replace(rust + ".segment.is_non_core()", f"(!{v}C)").replace(rust + ".segment.is_core()", f"{v}C")
+                e = e.replace(rust + ".is_up()", f"(!{v}C && !{v}D)").replace(rust + ".is_down()", f"(!{v}C && {v}D)")
+            if not re.fullmatch(r"(?:[abn][CD]|[\s()!]|&&|\|\|)+", e):
                 raise E(f"valid_next_seg: cannot translate {expr!r} (residue {e!r})")
             return e
 
         if m1.group(1) != "true" or m4.group(1) != "false":
             raise E("valid_next_seg: empty / >2 arms changed")
-        v2 = boolfn(m2.group(1), {"last.segment": "a", "segment": "n"})
-        v3 = boolfn(m3.group(1), {"first.segment": "a", "second.segment": "b", "segment": "n"})
+        v2 = boolfn(m2.group(1), {"last": "a", "next": "n"})
+        v3 = boolfn(m3.group(1), {"first": "a", "second": "b", "next": "n"})
         vals["VALID2"], vals["VALID3"] = v2, v3
 
         # sort key order in get_paths
@@ -188,22 +260,26 @@ def register(api):
         vals["SEGID_FIELDS"] = re.findall(r"hasher\.update\(ase\.([\w.]+)\.to_be_bytes\(\)\)", ib)
 
         body = "namespace ScionVerif.Generated.Comb\n"
-        for k in ("MAX_SEGMENTS", "MAX_SEGMENT_HOPS", "META_SIZE", "INFO_SIZE", "HOP_SIZE", "SEG0_LEN_BITS",
+        for k in ("MAX_SEGMENTS", "MAX_SEGMENT_HOPS", "MAX_TOTAL_HOPS", "TOTAL_HOPS_LIMIT", "META_SIZE", "INFO_SIZE", "HOP_SIZE", "SEG0_LEN_BITS",
                   "SEG1_LEN_BITS", "SEG2_LEN_BITS", "PATH_MAX_SIZE", "EXP_UNIT_MS", "MTU_INIT",
                   "AS_MTU_CAST_BITS", "LOOP_MAX_IFS"):
             body += f"def {k} : Nat := {vals[k]}\n"
-        body += "/-- `PathSolution::valid_next_seg`, one edge present: `a` = last segment is core, `n` = next is core -/\n"
-        body += f"def valid2 (a n : Bool) : Bool := {v2}\n"
-        body += "/-- two edges present: `a`,`b` = first/second segment is core, `n` = next is core -/\n"
-        body += f"def valid3 (a b n : Bool) : Bool := {v3}\n"
+        body += ("/-- `PathSolution::valid_next_seg`, one edge present. `a` = the edge present, `n` = the next edge; "
+                 "`xC` = its segment is core, `xD` = it traverses its segment in construction direction "
+                 "(`SolutionEdge::in_construction_direction`); `is_up` = `!xC && !xD`, `is_down` = `!xC && xD` -/\n")
+        body += f"def valid2 (aC aD nC nD : Bool) : Bool := {v2}\n"
+        body += "/-- two edges present: `a`,`b` = first/second edge, `n` = the next edge -/\n"
+        body += f"def valid3 (aC aD bC bD nC nD : Bool) : Bool := {v3}\n"
 
         def strlist(xs):
             return "[" + ", ".join('"' + x + '"' for x in xs) + "]"
 
+        body += "/-- the rejection tests of `StandardPath::wire_valid`, in source order (`encodeOk` implements this list) -/\n"
+        body += f"def WIRE_VALID_CHECKS : List String := {strlist(checks)}\n"
         body += f"def SORT_KEY : List String := {strlist(order)}\n"
         body += f"def DEDUP_KEY : String := \"{vals['DEDUP_KEY']}\"\n"
         body += f"def FPR_PREFIX : List String := {strlist(pre)}\n"
         body += f"def FPR_HOP_FIELDS : List String := {strlist(fields)}\n"
         body += f"def SEGID_FIELDS : List String := {strlist(vals['SEGID_FIELDS'])}\n"
         body += "end ScionVerif.Generated.Comb\n"
-        return api.write_lean("Comb", body, [LAYOUT, DPLAYOUT, HDRLAYOUT, TYPES, GRAPH, COMB, FPR, SEGMENT]), vals
+        return api.write_lean("Comb", body, [LAYOUT, STDMODEL, DPLAYOUT, HDRLAYOUT, TYPES, GRAPH, COMB, FPR, SEGMENT]), vals
